@@ -220,6 +220,23 @@ reg(
       desc="same state observed through read_only_clone(): every served index must be backed by region bytes",
       bounds=CMB + "; expanded states", functions=["vecdb::ReadOnlyRawVec::collect_one_at"], stubs=CMS),
 )
+reg(
+    H("c15_delta_sub_reads", "vecdb", "C15", mem=8, timeout=900,
+      desc="LazyDeltaVec<DeltaSub> over a mock source with a symbolic monotone window-start mapping (non-empty windows): range folds and point reads equal src[h] - src[start-1] (saturating; 0 look-back when start = 0), incl. ranges starting in the warm-up zone",
+      bounds=C15B + "; mapping as long as the source", functions=["vecdb::LazyDeltaVec::{bulk_try_fold,fold_range_at,collect_one_at}", "vecdb::DeltaSub"], stubs=[WCAP]),
+    H("c15_delta_sub_empty_windows", "vecdb", "C15", mem=8, timeout=900,
+      desc="same with empty windows allowed (start = h + 1)", bounds=C15B, functions=["vecdb::DeltaSub::count", "vecdb::LazyDeltaVec"], stubs=[WCAP]),
+    H("c15_agg_sparse_reads", "vecdb", "C15", mem=24, timeout=1500, tier="thorough",
+      desc="LazyAggVec<Sparse> over a first-index mapping with 3 groups incl. empty groups: point reads and range folds equal 'last source value of the group, None for an empty group'",
+      bounds=C15B + "; 3 groups", functions=["vecdb::LazyAggVec", "vecdb::Sparse::{try_fold,collect_one}"], stubs=[WCAP]),
+    H("c17_meta_roundtrip_valid", "rawdb", "C17", mem=10, timeout=900, memsafe=True, also=("C01",),
+      desc="RegionMetadata: from_bytes(to_bytes(m)) = m for all valid (start, len, reserved) and a 1-2 byte name (the real 4 KiB encoder)",
+      bounds="all page-aligned start/reserved >= 4096, len <= reserved; name 'x' or 'ab'", functions=["rawdb::RegionMetadata::{to_bytes,from_bytes}"], stubs=[FMT, TOVEC]),
+    H("c17_meta_name_length_limits", "rawdb", "C17", mem=10, timeout=900,
+      desc="a slot whose name is 1023 or 1024 bytes long decodes, 1025 is rejected (encoder accepts names up to 1024 bytes)",
+      bounds="ASCII content (UTF-8 validation and the copy are stubbed: length logic only)", functions=["rawdb::RegionMetadata::from_bytes"],
+      stubs=[FMT, "<[u8]>::to_vec -> empty vec and String::from_utf8 -> Ok (content irrelevant: ASCII by construction)"]),
+)
 
 
 def select(prop, tier, seed=0):
